@@ -1,28 +1,28 @@
-\* quick: two read transactions and one writer interleaved at operation granularity
+\* explicit cursor of the writer over two keys of which one is committed (durable or cached) and the other pending (direction changes across the two sources)
 INIT Init
 NEXT Next
 CONSTANTS
-  KeyOrder <- K1
-  ValSet <- V2
-  NameOrder <- N0
-  MaxDepth = 0
+  KeyOrder <- K2
+  ValSet <- V1
+  NameOrder <- N1
+  MaxDepth = 1
   BlockOrder <- B0
   RawLen <- MC_RawLen
   Limit = 186
   PruneTarget = 186
   MaxTx = 2
   MaxOps = 1
-  Readers <- R2
-  MaxReads = 2
+  Readers <- NoReaders
+  MaxReads = 0
   MaxFaults = 0
   CrashMode = "none"
   PowerLoss = FALSE
   MaxCrash = 0
   FlushModes <- FlushBoth
   AllowRestart = FALSE
-  MaxCur = 0
-  PutPaths <- AllPaths
+  MaxCur = 4
+  PutPaths <- Nested
   CurSeeks = FALSE
-  BucketOps = TRUE
-  PreBuckets <- NoPaths
+  BucketOps = FALSE
+  PreBuckets <- PreA
 INVARIANTS TypeOK Disjoint Atomicity Isolation PrefixDurability ReopenOK
